@@ -238,4 +238,19 @@ def readerAlleneSign (e : Ends) (ord1 ord2 : List Nat) (isH : Nat → Bool) (mar
   let n2 ← firstIn ord2 e
   translateAllene (some e) isH n1 n2 none (some mark)
 
+/-! ## stereogenicity of one double bond (`MoleculeStereo.__chiral_centers`, cis-trans part) -/
+
+/-- `any(len(x) < 8 for x in atoms_rings[n] if m in x)`: the "skip small rings" test; `sizes` = sizes of the SSSR rings
+that contain both terminal atoms of the double-bond chain (before commit c15352c: every ring through the first
+terminal, see known_findings/C12.json) -/
+def smallRing (sizes : List Nat) : Bool := sizes.any (· < 8)
+
+/-- Is the (unlabelled) double bond reported in `chiral_cis_trans`?  `endsDistinct`: both ends carry two substituents with
+different Morgan classes; `shareRing`: both terminal atoms lie in one SSSR ring (`ring_cumulenes_terminals`).
+Chain double bonds: stereogenic iff the ends are distinct.  Ring double bonds: "always chiral" unless a ring through
+both terminals has fewer than 8 atoms, then never.  (The later axis/graph step only adds elements for multi-element ring
+systems and is outside this function.) -/
+def cisTransStereogenic (endsDistinct shareRing : Bool) (sizes : List Nat) : Bool :=
+  if shareRing then !smallRing sizes else endsDistinct
+
 end ChythonModel.Model.Stereo
